@@ -21,9 +21,28 @@ from .loader import Func, add_parents, walk_no_nested_defs, call_name
 _PURE_CALLS = {"len", "set", "frozenset", "list", "tuple", "dict", "sorted", "range", "enumerate", "zip", "min", "max", "sum", "abs", "round", "bool", "int", "float", "str"}
 
 
-def _pure(e):
+def _reads_only(ctx, m):
+    """m and everything it calls store no attribute and call no mutator on an attribute (a query method)"""
+    from .pointsto import MUTATORS
+    for h in ctx.cg.reachable([m]):
+        for x in walk_no_nested_defs(h.node):
+            if isinstance(x, ast.Attribute) and isinstance(x.ctx, (ast.Store, ast.Del)):
+                return False
+            if isinstance(x, ast.Subscript) and isinstance(x.ctx, (ast.Store, ast.Del)) and isinstance(x.value, ast.Attribute):
+                return False
+            if isinstance(x, ast.Call) and isinstance(x.func, ast.Attribute) and x.func.attr in MUTATORS and isinstance(x.func.value, ast.Attribute):
+                return False
+    return True
+
+
+def _pure(e, ctx=None, receiver=None):
     for x in ast.walk(e):
         if isinstance(x, ast.Call):
+            if ctx is not None and receiver is not None and isinstance(x.func, ast.Attribute) and isinstance(x.func.value, ast.Name) and x.func.value.id == receiver:
+                ms = [c.methods[x.func.attr] for c in ctx.prog.classes.values() if x.func.attr in c.methods]
+                if ms and all(_reads_only(ctx, m) for m in ms):
+                    continue
+                return False
             if call_name(x) not in _PURE_CALLS:
                 return False
         if isinstance(x, (ast.Lambda, ast.Await, ast.Yield, ast.YieldFrom, ast.NamedExpr, ast.Starred)):
@@ -94,6 +113,132 @@ def _inline_pure_helper(ctx, g, e, depth=0):
     return _inline_pure_helper(ctx, g, out, depth + 1) if isinstance(out, ast.Call) else out
 
 
+def _enclosing_enumerate(call):
+    """(position variable, element variable, iterated expression, loop) of the innermost `for k, s in enumerate(X)` (or `for s in X`) around call"""
+    n = getattr(call, "parent", None)
+    while n is not None and not isinstance(n, (ast.FunctionDef, ast.AsyncFunctionDef)):
+        if isinstance(n, ast.For):
+            if isinstance(n.iter, ast.Call) and isinstance(n.iter.func, ast.Name) and n.iter.func.id == "enumerate" and len(n.iter.args) == 1 \
+                    and isinstance(n.target, ast.Tuple) and len(n.target.elts) == 2 and all(isinstance(t, ast.Name) for t in n.target.elts):
+                return n.target.elts[0].id, n.target.elts[1].id, n.iter.args[0], n
+            if isinstance(n.target, ast.Name):
+                return None, n.target.id, n.iter, n
+        n = getattr(n, "parent", None)
+    return None
+
+
+def _table_entry(ctx, g, tdef, depth=0):
+    """What a position table holds: (iterated list expression, element variable, entry expression over the element variable,
+    condition or None) for
+        [E(s) for s in X]            [E(s) if c(s) else None for s in X]
+        {k: E(s) for k, s in enumerate(X) if c(s)}
+        T = {} / [None] * len(X); for k, s in enumerate(X): if c(s): T[k] = E(s)      (in a helper `return T`, or in g itself)
+    None when the definition is none of these."""
+    if depth > 2:
+        return None
+    if isinstance(tdef, ast.Call) and isinstance(tdef.func, ast.Attribute) and isinstance(tdef.func.value, ast.Name) and tdef.func.value.id == "self" \
+            and not tdef.args and not tdef.keywords and g.cls is not None:
+        m = ctx.prog.resolve_method(g.cls.name, tdef.func.attr)
+        if m is None:
+            return None
+        body = [st for st in m.node.body if not (isinstance(st, ast.Expr) and isinstance(st.value, ast.Constant))]
+        if len(body) == 1 and isinstance(body[0], ast.Return) and body[0].value is not None:
+            return _table_entry(ctx, m, body[0].value, depth + 1)
+        if len(body) == 3 and isinstance(body[0], ast.Assign) and isinstance(body[1], ast.For) and isinstance(body[2], ast.Return) \
+                and isinstance(body[2].value, ast.Name) and len(body[0].targets) == 1 and isinstance(body[0].targets[0], ast.Name) and body[0].targets[0].id == body[2].value.id:
+            return _fill_loop(body[0], body[1])
+        return None
+    if isinstance(tdef, ast.ListComp) and len(tdef.generators) == 1 and not tdef.generators[0].ifs and isinstance(tdef.generators[0].target, ast.Name):
+        gen = tdef.generators[0]
+        elt, cond = tdef.elt, None
+        if isinstance(elt, ast.IfExp) and isinstance(elt.orelse, ast.Constant) and elt.orelse.value is None:
+            elt, cond = elt.body, elt.test
+        return gen.iter, gen.target.id, elt, cond
+    if isinstance(tdef, ast.DictComp) and len(tdef.generators) == 1:
+        gen = tdef.generators[0]
+        if isinstance(gen.iter, ast.Call) and isinstance(gen.iter.func, ast.Name) and gen.iter.func.id == "enumerate" and len(gen.iter.args) == 1 \
+                and isinstance(gen.target, ast.Tuple) and len(gen.target.elts) == 2 and all(isinstance(t, ast.Name) for t in gen.target.elts) \
+                and isinstance(tdef.key, ast.Name) and tdef.key.id == gen.target.elts[0].id and len(gen.ifs) <= 1:
+            return gen.iter.args[0], gen.target.elts[1].id, tdef.value, (gen.ifs[0] if gen.ifs else None)
+    return None
+
+
+def _fill_loop(init, loop):
+    """T = {} ; for k, s in enumerate(X): [if c:] T[k] = E"""
+    T = init.targets[0].id
+    if not (isinstance(loop.iter, ast.Call) and isinstance(loop.iter.func, ast.Name) and loop.iter.func.id == "enumerate" and len(loop.iter.args) == 1
+            and isinstance(loop.target, ast.Tuple) and len(loop.target.elts) == 2 and all(isinstance(t, ast.Name) for t in loop.target.elts)) or loop.orelse:
+        return None
+    k, sv = loop.target.elts[0].id, loop.target.elts[1].id
+    body, cond = loop.body, None
+    if len(body) == 1 and isinstance(body[0], ast.If) and not body[0].orelse:
+        cond, body = body[0].test, body[0].body
+    if len(body) == 1 and isinstance(body[0], ast.Assign) and len(body[0].targets) == 1 and isinstance(body[0].targets[0], ast.Subscript) \
+            and isinstance(body[0].targets[0].value, ast.Name) and body[0].targets[0].value.id == T \
+            and isinstance(body[0].targets[0].slice, ast.Name) and body[0].targets[0].slice.id == k:
+        return loop.iter.args[0], sv, body[0].value, cond
+    return None
+
+
+def _lazy_memo(g, T, k, sv, call):
+    """`if k not in T: T[k] = E` in front of the use, T = {} before the loops, no other store into T: T[k] is E"""
+    fills = [st for st in walk_no_nested_defs(g.node) if isinstance(st, ast.Assign) and len(st.targets) == 1 and isinstance(st.targets[0], ast.Subscript)
+             and isinstance(st.targets[0].value, ast.Name) and st.targets[0].value.id == T]
+    if len(fills) != 1:
+        return None
+    st = fills[0]
+    par = getattr(st, "parent", None)
+    if not (isinstance(st.targets[0].slice, ast.Name) and st.targets[0].slice.id == k and isinstance(par, ast.If) and not par.orelse and len(par.body) == 1
+            and isinstance(par.test, ast.Compare) and len(par.test.ops) == 1 and isinstance(par.test.ops[0], ast.NotIn)
+            and isinstance(par.test.left, ast.Name) and par.test.left.id == k and isinstance(par.test.comparators[0], ast.Name) and par.test.comparators[0].id == T):
+        return None
+    return st.value
+
+
+def _resolve_table_lookup(ctx, g, call, a):
+    """The argument `T[k]` of a call `s.method(..., T[k])` inside `for k, s in enumerate(X)`, with T a table that holds E(X[i]) at
+    position i: the argument is E(s).  Returns (expression over the loop's element variable, that variable) or None."""
+    if not (isinstance(a, ast.Subscript) and isinstance(a.value, ast.Name) and isinstance(a.slice, ast.Name) and isinstance(call.func, ast.Attribute)
+            and isinstance(call.func.value, ast.Name)):
+        return None
+    enc = _enclosing_enumerate(call)
+    if enc is None or enc[0] is None or enc[0] != a.slice.id or enc[1] != call.func.value.id:
+        return None
+    k, sv, X, loop = enc
+    T = a.value.id
+    defs = [d for d in ctx.cfg(g).defs_reaching(call, T)]
+    adefs = [d for d in defs if isinstance(d, ast.Assign) and len(d.targets) == 1 and isinstance(d.targets[0], ast.Name)]
+    if len(adefs) != 1:
+        return None
+    tdef = adefs[0].value
+    ent = None
+    if isinstance(tdef, ast.Dict) and not tdef.keys:
+        e = _lazy_memo(g, T, k, sv, call)
+        if e is not None:
+            ent = (X, sv, e, None)
+        else:
+            nxt = [st for st in g.node.body if isinstance(st, ast.For)]
+            for lp in nxt:
+                r = _fill_loop(adefs[0], lp)
+                if r is not None and lp is not loop:
+                    ent = r
+    else:
+        if any(isinstance(st, ast.Assign) and any(isinstance(t, ast.Subscript) and isinstance(t.value, ast.Name) and t.value.id == T for t in st.targets)
+               for st in walk_no_nested_defs(g.node)):
+            return None          # the table is modified after it was built
+        ent = _table_entry(ctx, g, tdef)
+    if ent is None:
+        return None
+    X2, sv2, E, cond = ent
+    if ast.dump(X2) != ast.dump(X):
+        return None
+    # rename the table's element variable to the loop's
+    class _R(ast.NodeTransformer):
+        def visit_Name(self, node):
+            return ast.copy_location(ast.Name(id=sv, ctx=node.ctx), node) if node.id == sv2 else node
+    return _R().visit(copy.deepcopy(E)), sv
+
+
 def _actual(call, callee, p):
     """argument expression for parameter p of callee at `call` (None when not passed)"""
     params = [q for q in callee.params]
@@ -131,6 +276,10 @@ def specialise(ctx, f, keep=1):
                 exprs.append(copy.deepcopy(f.defaults[p]))
                 continue
             e = a
+            receiver = None
+            tl = _resolve_table_lookup(ctx, g, call, a)
+            if tl is not None:
+                e, receiver = tl
             if isinstance(a, ast.Name):
                 defs = ctx.cfg(g).defs_reaching(call, a.id)
                 defs = [d for d in defs if isinstance(d, ast.Assign)] if all(isinstance(d, ast.Assign) for d in defs) else []
@@ -139,7 +288,7 @@ def specialise(ctx, f, keep=1):
                     break
                 e = defs[0].value
             e = _inline_pure_helper(ctx, g, e)
-            if not _pure(e):
+            if not _pure(e, ctx, receiver):
                 ok = False
                 break
             # translate into the callee's vocabulary: what the caller passes for q is the callee's q
@@ -152,10 +301,16 @@ def specialise(ctx, f, keep=1):
                     table[ast.dump(aq)] = ast.Name(id=q, ctx=ast.Load())
             e2 = _Replace(table).visit(copy.deepcopy(e))
             free = {x.id for x in ast.walk(e2) if isinstance(x, ast.Name)} - _bound_names(e2)
-            allowed = set(ps) | set(g.mod.consts) | _PURE_CALLS | {"True", "False", "None"}
+            allowed = set(ps) | set(g.mod.consts) | _PURE_CALLS | {"True", "False", "None"} | ({receiver} if receiver else set())
             if not free <= allowed or "self" in free:
                 ok = False
                 break
+            if receiver is not None:
+                # the element the method is called on is the callee's `self`
+                class _Recv(ast.NodeTransformer):
+                    def visit_Name(self, node, _r=receiver):
+                        return ast.copy_location(ast.Name(id="self", ctx=node.ctx), node) if node.id == _r else node
+                e2 = _Recv().visit(e2)
             # the attributes it reads are not written below the callee
             read = {x.attr for x in ast.walk(e2) if isinstance(x, ast.Attribute)}
             for h in ctx.cg.reachable([f]):
